@@ -110,6 +110,9 @@ func c14From(na sip.NameAddr, tag string) (got string, why string) {
 	if w := c14URIAccessors(na.URI, as); w != "" {
 		return got, w
 	}
+	if again := f.String(); again != got {
+		return again, "reading the components changed what is re-encoded"
+	}
 	f2, err := ParseFromSpec(got)
 	if err != nil || f2.String() != got {
 		return got, "encode-decode-encode unstable"
@@ -142,6 +145,9 @@ func c14To(na sip.NameAddr, tag string) (got string, why string) {
 		if h, err := f.GetHost(); err != nil || h != na.URI.Host {
 			return got, fmt.Sprintf("GetHost %q != %q", h, na.URI.Host)
 		}
+	}
+	if again := f.String(); again != got {
+		return again, "reading the components changed what is re-encoded"
 	}
 	f2, err := ParseTo(got)
 	if err != nil || f2.String() != got {
@@ -228,6 +234,9 @@ func c14Via(vs []sip.Via, value string) (got string, why string) {
 			return got, "rport reported although none written"
 		}
 	}
+	if again := v.String(); again != got {
+		return again, "reading the components changed what is re-encoded"
+	}
 	v2, err := ParseVia(got)
 	if err != nil || v2.String() != got {
 		return got, "encode-decode-encode unstable"
@@ -242,12 +251,14 @@ func c14RouteList(nas []sip.NameAddr, value string, record bool) (got string, wh
 	}
 	var first *NameAddr
 	var count int
+	var again func() string
 	if record {
 		rr, err := ParseRecordRoute(value)
 		if err != nil {
 			return "", "decode error: " + err.Error()
 		}
 		got = rr.String()
+		again = rr.String
 		count = rr.GetRecRouteCount()
 		if e, err := rr.GetRecRoute(0); err == nil {
 			first = e.GetNameAddr()
@@ -261,6 +272,7 @@ func c14RouteList(nas []sip.NameAddr, value string, record bool) (got string, wh
 			return "", "decode error: " + err.Error()
 		}
 		got = r.String()
+		again = r.String
 		count = r.GetRouteParamCount()
 		if e, err := r.GetRouteParam(0); err == nil {
 			first = e.GetAddress()
@@ -280,6 +292,9 @@ func c14RouteList(nas []sip.NameAddr, value string, record bool) (got string, wh
 	}
 	if w := c14URIAccessors(nas[0].URI, first.GetAddress()); w != "" {
 		return got, "first entry: " + w
+	}
+	if a := again(); a != got {
+		return a, "reading the components changed what is re-encoded"
 	}
 	return got, ""
 }
@@ -318,13 +333,18 @@ func c14ReqLine(method string, u sip.URI) (string, string) {
 	if w := c14URIAccessors(u, rl.requestURI); w != "" {
 		return got, w
 	}
+	sb.Reset()
+	m.encodeFirstLine(&sb)
+	if again := strings.TrimSuffix(sb.String(), "\r\n"); again != got {
+		return again, "reading the components changed what is re-encoded"
+	}
 	return got, ""
 }
 
 // c14Whole sends the decoded headers through a whole message: parse, touch
 // every typed accessor the pipeline uses, serialise, compare with the
 // harness's own reader.
-func c14Whole(method string, ruri sip.URI, from, to sip.NameAddr, vias []string, routes []string, cseq string, stamp bool) (string, string) {
+func c14Whole(method string, ruri sip.URI, from, to sip.NameAddr, vias []string, routes []string, cseq string, stamp bool, op string) (string, string) {
 	in := &sip.Msg{Start: method + " " + ruri.String() + " SIP/2.0"}
 	for _, v := range vias {
 		in.Headers = append(in.Headers, sip.Header{Name: "Via", Value: v})
@@ -349,6 +369,41 @@ func c14Whole(method string, ruri sip.URI, from, to sip.NameAddr, vias []string,
 	m.GetRoute()
 	m.GetDialog()
 	m.GetClientTransaction()
+	// the reads the routing steps make on the way: Request-URI, To host, first Route entry, every Via entry
+	if ru, err := m.GetRequestURI(); err == nil {
+		if su, err := ru.GetSIPURI(); err == nil {
+			su.GetPort()
+			su.GetTransport()
+			su.GetParameter("lr")
+		}
+	}
+	if t, err := m.GetTo(); err == nil {
+		t.GetHost()
+		t.GetTag()
+	}
+	if r, err := m.GetRoute(); err == nil {
+		if rp, err := r.GetRouteParam(0); err == nil {
+			if su, err := rp.GetAddress().GetAddress().GetSIPURI(); err == nil {
+				su.GetPort()
+				su.GetTransport()
+			}
+		}
+	}
+	m.ForEachViaParam(func(vp *ViaParam) {
+		vp.GetPort()
+		vp.GetBranch()
+		vp.GetReceived()
+		vp.GetRPort()
+	})
+	popVia, popRoute := false, false
+	switch op {
+	case "popvia": // what happens to a response: the top entry goes, nothing else
+		popVia = m.PopVia() == nil
+	case "poproute": // what happens to a request that is routed by its first Route entry
+		if _, err := m.GetRoute(); err == nil {
+			popRoute = m.PopRoute() == nil
+		}
+	}
 	stamped := false
 	if stamp {
 		// what a received-enabled listener does between decoding and encoding
@@ -374,6 +429,12 @@ func c14Whole(method string, ruri sip.URI, from, to sip.NameAddr, vias []string,
 	}
 	for _, name := range []string{"via", "route"} {
 		a, g := in.List(name), out.List(name)
+		if name == "via" && popVia && len(a) > 0 {
+			a = a[1:]
+		}
+		if name == "route" && popRoute && len(a) > 0 {
+			a = a[1:]
+		}
 		if name == "via" && stamped && len(a) > 0 && len(g) == len(a) {
 			// the top entry legitimately gained / changed received (and the value of an rport it had)
 			ta, tg := c14StripStamp(a[0]), c14StripStamp(g[0])
@@ -597,7 +658,8 @@ func TestVerifC14(t *testing.T) {
 				}
 				routes, l2 := g.JoinList(rentries)
 				cseq := fmt.Sprintf("%d %s", g.R.Intn(1<<31), meth)
-				got, why := c14Whole(meth, ru, from, to, vias, routes, cseq, g.R.Intn(2) == 0)
+				op := []string{"", "", "popvia", "poproute"}[g.R.Intn(4)]
+				got, why := c14Whole(meth, ru, from, to, vias, routes, cseq, op == "" && g.R.Intn(2) == 0, op)
 				sigs.eval("msg:" + s1 + "/" + l1 + "/" + l2)
 				if why != "" {
 					run.Violation("message: "+why, c14Fail{Kind: "message", Input: fmt.Sprintf("%s %s | From: %s | To: %s | Via: %v | Route: %v", meth, ru, from, to, vias, routes), Got: got, Reason: why})
